@@ -234,6 +234,11 @@ func (p *packer) consumeBudget(amount uint64) bool {
 
 func (p *packer) writeStr(maxLen uint, fixedLen bool) bool {
 	diff := 0
+	if fixedLen && maxLen > math.MaxInt64 {
+		// int(maxLen) below would be negative (and the subtraction could wrap)
+		p.err = errResultTooLarge
+		return false
+	}
 	if fixedLen {
 		diff = int(maxLen) - len(p.strVal)
 	}
